@@ -21,6 +21,7 @@ struct Task {
     std::atomic<int> wake{0};
     enum St { READY, BLOCKED, DONE } st = READY;
     void *wait_lock = nullptr;
+    int wait_excl = 0;
     VC vc;
     pthread_t th;
     const Json *ops = nullptr;
@@ -43,6 +44,7 @@ struct Sched {
     std::vector<int> replay; size_t rpos = 0; bool have_replay = false;
     u64 yields = 0, budget = 50000, switches = 0;
     bool free_run = false;           // after a deadlock / livelock verdict: let everything finish
+    bool writer_pref = false;        // rwlock policy of this run: POSIX leaves it open whether a waiting writer holds back new readers
     std::atomic<int> main_wake{0};
     int ntasks() const { return (int) tasks.size(); }
 };
@@ -120,13 +122,15 @@ int sched_lock(void *l, int excl) {
         LockSt &L = S->locks[l];
         bool mine_r = L.readers.count(me.id) != 0;
         bool free = excl ? (L.writer < 0 && (L.readers.empty() || (L.readers.size() == 1 && mine_r))) : (L.writer < 0 || L.writer == me.id);
+        if (!excl && free && S->writer_pref)   // writer-preferring, non-recursive: a queued writer blocks every new read lock, a nested one included
+            for (auto *t : S->tasks) if (t != &me && t->st == Task::BLOCKED && t->wait_lock == l && t->wait_excl) { free = false; break; }
         if (free || S->free_run) {
             if (excl) L.writer = me.id; else L.readers[me.id]++;
             vc_join(me.vc, L.vc);
             S->W->trace.add(excl ? "lock.w" : "lock.r", me.id);
             return 0;
         }
-        me.st = Task::BLOCKED; me.wait_lock = l;
+        me.st = Task::BLOCKED; me.wait_lock = l; me.wait_excl = excl;
         int next = choose(me.id, false);
         if (next < 0) { deadlock_verdict("deadlock"); continue; }
         switch_to(me, next);
@@ -151,6 +155,7 @@ int sched_unlock(void *l) {
     if (L.writer == me.id) L.writer = -1;
     else { auto it = L.readers.find(me.id); if (it != L.readers.end() && --it->second <= 0) L.readers.erase(it); }
     for (auto *t : S->tasks) if (t->st == Task::BLOCKED && t->wait_lock == l) t->st = Task::READY;
+    // (readers held back by a queued writer are woken too; they re-check and block again if the writer is still waiting)
     S->W->trace.add("unlock", me.id);
     yield_point("unlock");
     return 0;
@@ -241,6 +246,7 @@ void run_threaded(World &W, const Json &plan) {
     sc.sticky_pct = cfg["sticky"].in(80);
     sc.budget = (u64) cfg["budget"].num(50000);
     if (cfg.has("decisions")) { sc.replay = cfg["decisions"].intvec(); sc.have_replay = true; }
+    sc.writer_pref = cfg["wpref"].in(0) != 0;
     int n = (int) th.size();
     for (int i = 0; i < n; i++) {
         Task *t = new Task(); t->id = i; t->ops = &th[i]; t->base_index = 1000 * (i + 1); t->vc.assign(n, 0); t->vc[i] = 1;
